@@ -174,6 +174,9 @@ func (w *World) opCreateApp() {
 		if w.prop == "C11" && c.Prob(1, 6) {
 			a.Pool = pick(c, []string{"p-1", "a_b"}) // "any pool name": an annotation value is free text
 		}
+		if (w.prop == "C04" || w.prop == "C01") && c.Prob(1, 8) {
+			a.Pool = "a_b" // keys built from such a name cannot be decoded; whatever cannot be decoded must be left alone
+		}
 	}
 	if a.Kind != "dp" && w.prof.Pools && (w.prop == "C02" || w.prop == "C03" || w.prop == "C04" || w.prop == "C01") && c.Prob(1, 6) {
 		// "every pod using a named IP pool": the pool annotation on a statefulset / custom-resource / bare pod (kept like
